@@ -3,6 +3,8 @@ from harness import gens
 from harness.wire import Exn
 
 PROP = "C14"
+# every case also under the import-time configuration "digit cap off while netaddr is imported" (harness/implrun.py)
+BACKENDS = [None, "nodigitcap"]
 THEOREM_FILE = "Props/C14.v"
 EXTRA_THEOREM_FILES = ["Props/C14_src.v"]     # source tie: translated source = model (DESIGN 5.1b)
 EXTRA_THEOREM_FILES += ["Props/C14_src_ctor.v"]      # source tie of IPAddress.__init__ (int / copy branches)
